@@ -1,14 +1,14 @@
 /-
-  C17 — the type-definition skeleton (names, kinds, descriptions, fields, argument lists, type
-  references, implements, union members, enum values, input fields; no directive applications,
-  deprecations, default values): the reference parser `Spec/SdlParse.lean` reads the token
-  sequence of an exported skeleton type as the definition `describe` requires.
+  C17 — type definitions at token level (names, kinds, descriptions, fields, argument lists, type
+  references, implements, union members, enum values, input fields, default values, deprecations
+  and directive applications on every item): the reference parser `Spec/SdlParse.lean` reads the
+  token sequence of an exported type as the definition `describe` requires.
 -/
 import AGV.Model.Sdl
 import AGV.Spec.SdlParse
-import AGV.Lemmas.SdlLex
+import AGV.Lemmas.SdlValueLex
 namespace AGV.Lemmas.SdlSkeleton
-open AGV.Core AGV.Core.PAst AGV.Core.Sdl AGV.Model.Sdl AGV.Spec.Literal AGV.Spec.Lex AGV.Spec.Parse AGV.Spec.SdlParse AGV.Lemmas.SdlLex
+open AGV.Core AGV.Core.PAst AGV.Core.Sdl AGV.Model.Sdl AGV.Spec.Literal AGV.Spec.Lex AGV.Spec.Parse AGV.Spec.SdlParse AGV.Lemmas.SdlLex AGV.Lemmas.SdlValue
 
 -- ------------------------------------------------------------------ tokens of the skeleton
 
@@ -35,23 +35,37 @@ inductive TokEnd : List Tok → Prop
   | rbrace (r) : TokEnd (.punct '}' :: r)
   | rbrack (r) : TokEnd (.punct ']' :: r)
 
-theorem pType_toks (t : PType) : ∀ (f : Nat) (rest : List Tok), typeDepth t < f → TokEnd rest →
+theorem TokEnd.noBang {ts : List Tok} (h : TokEnd ts) : ∀ r, ts ≠ .punct '!' :: r := by
+  intro r e; cases h <;> cases e
+
+theorem TokEnd.dirEnd {ts : List Tok} (h : TokEnd ts) : DirEnd ts := by
+  intro r; constructor <;> (intro e; cases h <;> cases e)
+
+theorem TokEnd.noEq {ts : List Tok} (h : TokEnd ts) : ∀ r, ts ≠ .punct '=' :: r := by
+  intro r e; cases h <;> cases e
+
+theorem pType_toks (t : PType) : ∀ (f : Nat) (rest : List Tok), typeDepth t < f → (∀ r, rest ≠ .punct '!' :: r) →
     pType f (typeToks t ++ rest) = some (t, rest) := by
   induction t with
   | named n nl =>
     intro f rest hf h
     cases f with
     | zero => omega
-    | succ f => cases nl <;> cases h <;> simp [typeToks, pType]
+    | succ f =>
+      cases nl
+      · simp [typeToks, pType]
+      · simp only [typeToks, pType, if_true, List.cons_append, List.nil_append]
   | listOf t nl ih =>
     intro f rest hf h
     cases f with
     | zero => omega
     | succ f =>
       have := ih f (.punct ']' :: ((if nl then [] else [Tok.punct '!']) ++ rest)) (by simp [typeDepth] at hf; omega)
-        (TokEnd.rbrack _)
+        (by intro r e; cases e)
       simp only [typeToks, List.cons_append, List.append_assoc, pType, this]
-      cases nl <;> cases h <;> simp
+      cases nl
+      · simp
+      · simp only [if_true, List.nil_append]
 
 theorem typeDepth_lt (t : PType) : typeDepth t < (typeToks t).length := by
   induction t with
@@ -60,10 +74,20 @@ theorem typeDepth_lt (t : PType) : typeDepth t < (typeToks t).length := by
 
 -- ------------------------------------------------------------------ the skeleton
 
-/-- no deprecation, no directive application (a description is allowed) -/
-structure PlainAttrs (a : Attrs) : Prop where
-  dep : a.dep = .no
-  dirs : a.dirs = []
+/-- the directive applications of an item are well-formed (Names, printable argument values);
+    any description, any deprecation -/
+structure WfAttrs (a : Attrs) : Prop where
+  dirs : ∀ d ∈ a.dirs, dirWf d = true
+
+/-- all directive applications of an item of a plain export, in the order written and described:
+    the deprecation, then the custom directives -/
+def itemApps (a : Attrs) : List DirApp := depApps a.dep ++ a.dirs
+
+theorem itemApps_wf (a : Attrs) (h : WfAttrs a) : ∀ d ∈ itemApps a, dirWf d = true := by
+  intro d hd
+  rcases List.mem_append.mp hd with hd | hd
+  · exact depApps_wf _ d hd
+  · exact h.dirs d hd
 
 def WfType : PType → Prop
   | .named n _ => isName n = true
@@ -72,14 +96,20 @@ def WfType : PType → Prop
 structure SkelIv (x : InputVal) : Prop where
   name : isName x.name = true
   ty : WfType x.ty
-  default : x.default = none
-  attrs : PlainAttrs x.a
+  default : ∀ v, x.default = some v → svWf v = true
+  attrs : WfAttrs x.a
 
-def ivCore (x : InputVal) : List Tok := .name x.name :: .punct ':' :: typeToks x.ty
+/-- `DefaultValue?` -/
+def defaultToks : Option SValue → List Tok
+  | none => []
+  | some v => .punct '=' :: svToks v
+
+def ivCore (x : InputVal) : List Tok :=
+  .name x.name :: .punct ':' :: (typeToks x.ty ++ (defaultToks x.default ++ dirsToks (itemApps x.a)))
 def ivToks (x : InputVal) : List Tok := descToks x.a.desc ++ ivCore x
 
-theorem dDirs_plain (o : Opts) (ho : o.federation = false) (a : Attrs) (h : PlainAttrs a) : dDirs o a = [] := by
-  simp [dDirs, dDeprecated, dFed, ho, h.dep, h.dirs]
+theorem dDirs_apps (o : Opts) (ho : o.federation = false) (a : Attrs) : dDirs o a = (itemApps a).map dDir := by
+  simp [dDirs, dFed, ho, itemApps, depApps_dDir]
 
 theorem constDirs_noAt (ts : List Tok) (h : ∀ r, ts ≠ .punct '@' :: r) : constDirs ts = some ([], ts) := by
   unfold constDirs pDirs
@@ -97,13 +127,41 @@ theorem pDesc_descToks (d : Option Text) (n : Text) (r : List Tok) :
     pDesc (descToks d ++ .name n :: r) = (d, .name n :: r) := by
   cases d <;> rfl
 
+theorem dirsToks_noBang (ds : List DirApp) (rest : List Tok) (h : ∀ r, rest ≠ .punct '!' :: r) :
+    ∀ r, dirsToks ds ++ rest ≠ .punct '!' :: r := by
+  cases ds with
+  | nil => simpa [dirsToks] using h
+  | cons d ds => intro r; simp [dirsToks, dirToks]
+
+theorem dirsToks_noEq (ds : List DirApp) (rest : List Tok) (h : ∀ r, rest ≠ .punct '=' :: r) :
+    ∀ r, dirsToks ds ++ rest ≠ .punct '=' :: r := by
+  cases ds with
+  | nil => simpa [dirsToks] using h
+  | cons d ds => intro r; simp [dirsToks, dirToks]
+
 theorem pInputValue_toks (o : Opts) (ho : o.federation = false) (x : InputVal) (hx : SkelIv x) (rest : List Tok)
     (h : TokEnd rest) : pInputValue (ivToks x ++ rest) = some (dIv o x, rest) := by
-  have ht := pType_toks x.ty ((typeToks x.ty ++ rest).length + 1) rest
-    (by have := typeDepth_lt x.ty; simp; omega) h
-  have hd := constDirs_noAt rest h.noAt
-  simp only [pInputValue, ivToks, ivCore, List.append_assoc, List.cons_append, pDesc_descToks, ht]
-  cases h <;> simp [hd, dIv, hx.default, dDirs_plain o ho _ hx.attrs]
+  have hd := constDirs_toks (itemApps x.a) (itemApps_wf _ hx.attrs) rest h.dirEnd
+  have hdd := dDirs_apps o ho x.a
+  cases hdf : x.default with
+  | none =>
+    have ht := pType_toks x.ty ((typeToks x.ty ++ (dirsToks (itemApps x.a) ++ rest)).length + 1) (dirsToks (itemApps x.a) ++ rest)
+      (by have := typeDepth_lt x.ty; simp; omega) (dirsToks_noBang _ _ h.noBang)
+    have hne := dirsToks_noEq (itemApps x.a) rest h.noEq
+    simp only [pInputValue, ivToks, ivCore, hdf, defaultToks, List.nil_append, List.append_assoc, List.cons_append,
+      pDesc_descToks, ht]
+    generalize dirsToks (itemApps x.a) ++ rest = T at hd hne ⊢
+    simp [hd, dIv, hdf, hdd]
+  | some v =>
+    have hv := hx.default v hdf
+    have ht := pType_toks x.ty ((typeToks x.ty ++ (.punct '=' :: (svToks v ++ (dirsToks (itemApps x.a) ++ rest)))).length + 1)
+      (.punct '=' :: (svToks v ++ (dirsToks (itemApps x.a) ++ rest)))
+      (by have := typeDepth_lt x.ty; simp; omega) (by intro r e; cases e)
+    have hpv := pValue_toks v hv (valueFuel (svToks v ++ (dirsToks (itemApps x.a) ++ rest))) (dirsToks (itemApps x.a) ++ rest)
+      (by simp [valueFuel]; omega)
+    simp only [pInputValue, ivToks, ivCore, hdf, defaultToks, List.append_assoc, List.cons_append,
+      pDesc_descToks, ht, hpv, Option.map_some, hd]
+    simp [dIv, hdf, hdd]
 
 def ivsToks (xs : List InputVal) : List Tok := xs.flatMap ivToks
 
@@ -164,13 +222,13 @@ theorem ivsToks_length (xs : List InputVal) : xs.length ≤ (ivsToks xs).length 
 structure SkelField (f : FieldDef) : Prop where
   name : isName f.name = true
   ty : WfType f.ty
-  attrs : PlainAttrs f.a
+  attrs : WfAttrs f.a
   args : ∀ a ∈ f.args, SkelIv a
 
 def fieldCore (o : Opts) (f : FieldDef) : List Tok :=
   .name f.name ::
     (if f.args.isEmpty then [] else .punct '(' :: ivsToks (sorted o.sortedArgs (·.name) f.args) ++ [.punct ')']) ++
-    .punct ':' :: typeToks f.ty
+    .punct ':' :: (typeToks f.ty ++ dirsToks (itemApps f.a))
 
 def fieldToks (o : Opts) (f : FieldDef) : List Tok := descToks f.a.desc ++ fieldCore o f
 
@@ -188,26 +246,28 @@ theorem sorted_ne_nil {α : Type} (on : Bool) (nm : α → Text) (xs : List α) 
 
 theorem pField_toks (o : Opts) (ho : o.federation = false) (f : FieldDef) (hf : SkelField f) (rest : List Tok)
     (h : TokEnd rest) : pField (fieldToks o f ++ rest) = some (dField o f, rest) := by
-  have ht := fun g hg => pType_toks f.ty g rest hg h
-  have hd := constDirs_noAt rest h.noAt
+  have ht := fun g hg => pType_toks f.ty g (dirsToks (itemApps f.a) ++ rest) hg (dirsToks_noBang _ _ h.noBang)
+  have hd := constDirs_toks (itemApps f.a) (itemApps_wf _ hf.attrs) rest h.dirEnd
+  have hdd := dDirs_apps o ho f.a
   have hdep := typeDepth_lt f.ty
   by_cases he : f.args = []
-  · have hA : pArgsDef (.punct ':' :: (typeToks f.ty ++ rest)) = some ([], .punct ':' :: (typeToks f.ty ++ rest)) := rfl
+  · have hA : pArgsDef (.punct ':' :: (typeToks f.ty ++ (dirsToks (itemApps f.a) ++ rest))) =
+        some ([], .punct ':' :: (typeToks f.ty ++ (dirsToks (itemApps f.a) ++ rest))) := rfl
     simp only [pField, fieldToks, fieldCore, he, List.isEmpty_nil, if_true, List.nil_append, List.cons_append,
       List.append_assoc, pDesc_descToks, hA]
     rw [ht _ (by simp; omega)]
-    simp [hd, dField, dDirs_plain o ho _ hf.attrs, sorted, he]
+    simp [hd, dField, hdd, sorted, he]
   · have hne : f.args.isEmpty = false := by simpa using he
     have hargs := pInputValues_toks o ho ')' (Or.inl rfl) (sorted o.sortedArgs (·.name) f.args)
       (sorted_ne_nil _ _ _ he) (fun x hx => hf.args x ((sorted_mem _ _ _ _).mp hx))
-      (.punct ':' :: (typeToks f.ty ++ rest))
+      (.punct ':' :: (typeToks f.ty ++ (dirsToks (itemApps f.a) ++ rest)))
     have hlen := ivsToks_length (sorted o.sortedArgs (·.name) f.args)
     simp only [pField, fieldToks, fieldCore, hne, Bool.false_eq_true, if_false, List.cons_append, List.append_assoc,
       List.nil_append, pDesc_descToks, pArgsDef]
     rw [hargs _ (by simp; omega)]
     simp only []
     rw [ht _ (by simp; omega)]
-    simp [hd, dField, dDirs_plain o ho _ hf.attrs]
+    simp [hd, dField, hdd]
 
 def fieldsToks (o : Opts) (fs : List FieldDef) : List Tok := fs.flatMap (fieldToks o)
 
@@ -307,22 +367,27 @@ theorem pNamesAfter_toks (sep : Char) (ns : List Text) (hne : ns ≠ []) (rest :
 def implToks (impls : List Text) : List Tok :=
   if impls.isEmpty then [] else .name (kw "implements") :: sepToks '&' impls
 
-theorem pImplements_toks (impls : List Text) (rest : List Tok) :
-    pImplements (implToks impls ++ .punct '{' :: rest) = some (impls, .punct '{' :: rest) := by
+theorem pImplements_toks (impls : List Text) (rest : List Tok) (hn : ∀ n r, rest ≠ .name n :: r)
+    (ha : ∀ r, rest ≠ .punct '&' :: r) : pImplements (implToks impls ++ rest) = some (impls, rest) := by
   by_cases he : impls = []
-  · subst he; rfl
+  · subst he
+    simp only [implToks, List.isEmpty_nil, if_true, List.nil_append]
+    unfold pImplements
+    split
+    · rename_i k r; exact absurd rfl (hn k r)
+    · rfl
   · have hne : impls.isEmpty = false := by simpa using he
     simp only [implToks, hne, Bool.false_eq_true, if_false, List.cons_append, pImplements, if_true]
-    exact pNamesAfter_toks '&' impls he _ (by intro r e; cases e)
+    exact pNamesAfter_toks '&' impls he _ ha
 
 -- ------------------------------------------------------------------ enum values
 
 structure SkelEnumVal (v : Text × Attrs) : Prop where
   name : isName v.1 = true
   notLit : v.1 ≠ kw "true" ∧ v.1 ≠ kw "false" ∧ v.1 ≠ kw "null"
-  attrs : PlainAttrs v.2
+  attrs : WfAttrs v.2
 
-def enumValToks (v : Text × Attrs) : List Tok := descToks v.2.desc ++ [Tok.name v.1]
+def enumValToks (v : Text × Attrs) : List Tok := descToks v.2.desc ++ (Tok.name v.1 :: dirsToks (itemApps v.2))
 def enumToks (vs : List (Text × Attrs)) : List Tok := vs.flatMap enumValToks
 
 theorem enumValToks_head (v : Text × Attrs) (r : List Tok) : ItemHead (enumValToks v ++ r) := by
@@ -341,17 +406,18 @@ theorem pEnumValues_toks (o : Opts) (ho : o.federation = false) (vs : List (Text
     | zero => simp at hg
     | succ g =>
       have hv := hvs v List.mem_cons_self
-      have hdd := dDirs_plain o ho _ hv.attrs
+      have hdd := dDirs_apps o ho v.2
       cases vs with
       | nil =>
-        have hd := constDirs_noAt (.punct '}' :: rest) (by intro r e; cases e)
+        have hd := constDirs_toks (itemApps v.2) (itemApps_wf _ hv.attrs) (.punct '}' :: rest) (TokEnd.rbrace _).dirEnd
         simp only [enumToks, List.flatMap_cons, List.flatMap_nil, List.append_nil, enumValToks, List.append_assoc,
           List.cons_append, List.nil_append, pEnumValues, pDesc_descToks]
         simp [hv.notLit.1, hv.notLit.2.1, hv.notLit.2.2, hd, hdd]
       | cons w ws =>
         have := ih (by simp) (fun z hz => hvs z (List.mem_cons_of_mem _ hz)) g (by simp at hg ⊢; omega)
         have hh := enumValToks_head w (enumToks ws ++ .punct '}' :: rest)
-        have hd := constDirs_noAt (enumValToks w ++ (enumToks ws ++ .punct '}' :: rest)) hh.tokEnd.noAt
+        have hd := constDirs_toks (itemApps v.2) (itemApps_wf _ hv.attrs) (enumValToks w ++ (enumToks ws ++ .punct '}' :: rest))
+          hh.tokEnd.dirEnd
         simp only [enumToks, List.flatMap_cons, List.append_assoc, List.map_cons] at this hd hh ⊢
         generalize enumValToks w ++ (List.flatMap enumValToks ws ++ .punct '}' :: rest) = T at this hd hh ⊢
         simp only [enumValToks, List.append_assoc, List.cons_append, List.nil_append, pEnumValues, pDesc_descToks]
